@@ -1,10 +1,13 @@
 import Wee.Proofs.WriterLemmas
 import Wee.Proofs.SearchCtlSafe
+import Wee.Proofs.EnvLemmas
 /-!
 # "At least one report" for ANY incoming search memory and any number of workers (S1 of DESIGN, part D of C03)
 
 Helper lemmas for `Wee/Props/C03Report.lean`.
 
+0. `legalMoves_few`: a legal position has at most `64·64 + 2` legal moves (a crude count of the rules' move list, C01), so
+   the root call of the first iteration stays below the poll interval.
 1. `EvalIn`: every stored evaluation lies strictly inside the root window `(-mate_in_ply(0), mate_in_ply(0))`.
    `searchNode_inside`: under the bound `EvalBelowMate` on static evaluations, `analyze_recursive` keeps `EvalIn`
    (every value it stores is a window bound of a non-root node or a value strictly inside the window), and every value
@@ -15,10 +18,135 @@ Helper lemmas for `Wee/Props/C03Report.lean`.
 3. the root call of the first iteration (remaining depth 1): `root1_table` (the only possible write is ONE insert under
    the root's key), `root1_entry` (if it ends normally, the root's key is in the table afterwards — whatever the table
    held before).
-4. no interrupt below the poll interval (`searchNode_interrupt_nodes`), the workers of the first iteration
-   (`firstWorkers_kept`).
+4. no interrupt below the poll interval (`searchNode_interrupt_nodes`), one worker (`firstWorker_run`), the workers of the
+   first iteration (`runWorkers_first`, `first_root_entry_kept_always`).
 5. `EvalIn` through the deepening loop (`iterate_evalIn`).
+6. `runWorkers_first_table` (unconditional: only inserts under the root's key); 6b. removed with the repair of F10
+   (was `no_report_of_big_evals`: children that all evaluate to at least `mate_in_ply(0)` ⇒ no report).
+7. the same under an arbitrary schedule of the workers (`Wee/Model/SearchEnv.lean`): node count and interrupt in any
+   environment (`root1E_nodes`, `searchNodeE_interrupt_nodes`), the guarantee `runWorkerE_rootkey`, the shared table after
+   the first iteration (`table_rootkey`), `stepS_first_reports`, `loopS_first_reports`.
+8. `EvalIn` in an environment by rely/guarantee (`searchNodeE_inside`, `interleaving_evalIn`, `searchS_evalIn`).
 -/
+/-! ## 0. a legal position has fewer than `pollInterval - 1` legal moves (at most 4098: a crude count of the rules' move list) -/
+namespace Wee.Spec
+
+theorem slideDir_length (occ : Nat → Bool) (df dr : Int) : ∀ (fuel sq : Nat), (slideDir occ df dr fuel sq).length ≤ fuel := by
+  intro fuel
+  induction fuel with
+  | zero => intro sq; simp [slideDir]
+  | succ fuel ih =>
+    intro sq
+    rw [slideDir]
+    split
+    · simp
+    · split
+      · simp
+      · have := ih ‹Nat›
+        simp only [List.length_cons]
+        omega
+
+theorem flatMap_length_le {α β : Type} (f : α → List β) (B : Nat) (hf : ∀ x, (f x).length ≤ B) :
+    ∀ l : List α, (l.flatMap f).length ≤ B * l.length := by
+  intro l
+  induction l with
+  | nil => simp
+  | cons x xs ih =>
+    rw [List.flatMap_cons, List.length_append, List.length_cons]
+    have := hf x
+    rw [Nat.mul_succ]
+    omega
+
+theorem slide_length (occ : Nat → Bool) (dirs : List (Int × Int)) (sq : Nat) :
+    (slide occ dirs sq).length ≤ 8 * dirs.length := by
+  unfold slide
+  exact flatMap_length_le (fun d : Int × Int => slideDir occ d.1 d.2 8 sq) 8 (fun d => slideDir_length occ d.1 d.2 8 sq) dirs
+
+theorem attacksFrom_length (occ : Nat → Bool) (c : Color) (k : Kind) (s : Nat) : (attacksFrom occ c k s).length ≤ 64 := by
+  cases k <;> unfold attacksFrom <;> simp only []
+  · exact Nat.le_trans (List.length_filterMap_le _ _) (by simp)
+  · exact Nat.le_trans (List.length_filterMap_le _ _) (by decide)
+  · exact Nat.le_trans (slide_length occ bishopDirs s) (by decide)
+  · exact Nat.le_trans (slide_length occ rookDirs s) (by decide)
+  · exact Nat.le_trans (slide_length occ (rookDirs ++ bishopDirs) s) (by decide)
+  · exact Nat.le_trans (List.length_filterMap_le _ _) (by decide)
+
+theorem pieceMovesFrom_length (p : Pos) (c : Color) (k : Kind) (s : Nat) : (pieceMovesFrom p c k s).length ≤ 64 :=
+  Nat.le_trans (List.length_filterMap_le _ _) (attacksFrom_length _ c k s)
+
+
+theorem withPromo_length (c : Color) (m : SMove) :
+    (if m.dst / 8 = lastRank c then promoKinds.map fun k => { m with promo := some k } else [m]).length ≤ 4 := by
+  split <;> simp [promoKinds]
+
+theorem pawnMovesFrom_length (p : Pos) (c : Color) (s : Nat) : (pawnMovesFrom p c s).length ≤ 64 := by
+  unfold pawnMovesFrom
+  dsimp only
+  rw [List.length_append, List.length_append]
+  refine Nat.le_trans (Nat.add_le_add (Nat.add_le_add (?_ : _ ≤ 4) (?_ : _ ≤ 1)) (?_ : _ ≤ 4 * 2)) (by decide)
+  · split
+    · split
+      · simp
+      · split <;> simp [promoKinds]
+    · simp
+  · split
+    · split
+      · split
+        · split <;> simp
+        · simp
+      · simp
+    · simp
+  · refine Nat.le_trans (flatMap_length_le _ 4 (fun t => ?_) _)
+      (Nat.mul_le_mul_left 4 (Nat.le_trans (List.length_filterMap_le _ _) (by simp)))
+    split
+    · split
+      · split <;> simp [promoKinds]
+      · simp
+    · split <;> simp
+
+theorem ite_singleton_length {α : Type} (c : Prop) [Decidable c] (m : α) : (if c then [m] else []).length ≤ 1 := by
+  split <;> simp
+
+theorem pseudoMoves_length (p : Pos) : (pseudoMoves p).length ≤ 64 * 64 + 2 := by
+  unfold pseudoMoves
+  rw [List.length_append]
+  refine Nat.add_le_add ?_ ?_
+  · refine Nat.le_trans (flatMap_length_le _ 64 (fun s => ?_) (List.range 64)) (by rw [List.length_range]; exact Nat.le_refl _)
+    split
+    · split
+      · split
+        · exact pawnMovesFrom_length _ _ _
+        · exact pieceMovesFrom_length _ _ _ _
+      · simp
+    · simp
+  · unfold castleMoves
+    rw [List.length_append]
+    refine Nat.add_le_add (?_ : _ ≤ 1) (?_ : _ ≤ 1)
+    · exact ite_singleton_length _ _
+    · exact ite_singleton_length _ _
+
+theorem legalMoves_length (p : Pos) : (legalMoves p).length ≤ 4098 :=
+  Nat.le_trans (List.length_filter_le _ _) (pseudoMoves_length p)
+
+end Wee.Spec
+
+
+namespace Wee
+open Wee.C10 (DisjointBoard)
+
+/-- **every legal position has fewer than 9999 legal moves** (at most `64·64 + 2`; the true maximum is 218): the list of
+`compute_legal_moves` has the length of the rules' list (C01), which is a sub-list of at most 64 moves per square plus
+two castlings.  So the single root call of the first iteration, which counts one node per legal move, stays below the poll
+interval of 10000 nodes. -/
+theorem legalMoves_few (s : State) (hl : LegalPos s = true) (hd : DisjointBoard s.pieces) :
+    (legalMoves s).length + 1 < Gen.pollInterval := by
+  rw [C01_count s hl hd]
+  have := Spec.legalMoves_length (abs s)
+  unfold Gen.pollInterval
+  omega
+
+end Wee
+
 namespace Wee.Search
 open Wee Wee.SearchCtl
 
@@ -1024,4 +1152,878 @@ theorem insertsAt_find (k : Nat) : ∀ (es : List TT.Entry) (tt : TT.Access), TT
     rw [i2, find_insert_isSome hwf]
     simp
 
+
+/-! ## 6b. (removed) the former limit of the statement
+
+Until the repair of defect F10 this section proved `no_report_of_big_evals` (a root not in check, an empty table, every
+successor with a static evaluation `≥ mate_in_ply(0)` ⇒ `analyze_iterative` with depth limit 1 emits no `BestMove`), used
+for the kernel-checked counterexample `C03_no_report_overmaterial`.  Since `Evaluator::evaluate` clamps its heuristic
+result to `[NEG_INF + 1, POS_INF - 1]`, the hypothesis "static evaluation from the side to move `≥ mate_in_ply(0)`" is
+unsatisfiable (`C06.static_lt`), so the lemmas were deleted together with the counterexample; see
+`C03_report_overmaterial_repaired` in `Wee/Props/C03Report.lean`. -/
+
 end Wee.Search
+
+/-! ## 7. the first iteration under an arbitrary schedule of the workers (`Wee/Model/SearchEnv.lean`) -/
+namespace Wee.Env
+open Wee Wee.Search
+open Wee.SearchCtl (Walk InBuffer childArgs entryOf tick bufferOf)
+
+/-! ### node counts of a worker in an environment -/
+
+theorem probeK_nodes_le (env : Env) (ctx : Ctx) (a : NodeArgs) (hash : UInt64) (rec : Option (NodeArgs → ME Eval))
+    (B : Nat) (hT : ∀ al be n st, (tailE env ctx a hash al be rec n st).2.1.nodes ≤ st.nodes + B) :
+    ∀ (o : Option TT.Entry) (n : Nat) (st : St), (probeK env ctx a hash rec o n st).2.1.nodes ≤ st.nodes + B := by
+  intro o n st
+  cases o with
+  | none => exact hT _ _ n st
+  | some e =>
+    unfold probeK
+    simp only
+    by_cases hu : a.maxDepth < a.curDepth ∨ e.maxDepth < e.depth
+    · rw [if_pos hu]
+      exact Nat.le_add_right _ _
+    · rw [if_neg hu]
+      split
+      · split
+        · exact Nat.le_add_right _ _
+        · split
+          · split
+            · exact Nat.le_add_right _ _
+            · exact hT _ _ _ _
+          · split
+            · exact Nat.le_add_right _ _
+            · exact hT _ _ _ _
+      · exact hT _ _ _ _
+
+theorem nodeBodyE_nodes_le (env : Env) (ctx : Ctx) (a : NodeArgs) (rec : Option (NodeArgs → ME Eval))
+    (B : Nat) (hT : ∀ al be n st, (tailE env ctx a (Wee.hash ctx.keys a.s) al be rec n st).2.1.nodes ≤ st.nodes + B)
+    (n : Nat) (st : St) : (nodeBodyE env ctx rec a n st).2.1.nodes ≤ st.nodes + 1 + B := by
+  rw [nodeBodyE_run]
+  have ht := NoPoll.tick_nodes ctx st
+  generalize tick ctx st = out at ht
+  obtain ⟨r, st1⟩ := out
+  have ht' : st1.nodes = st.nodes + 1 := ht
+  cases r with
+  | error e => show st1.nodes ≤ _; omega
+  | ok u =>
+    simp only
+    split
+    · show st1.nodes ≤ _; omega
+    · rw [probeE_run]
+      have h := probeK_nodes_le env ctx a (Wee.hash ctx.keys a.s) rec B hT
+        ((applyInserts st1.tt (env.script n)).find (Wee.hash ctx.keys a.s).toNat) (n + 1)
+        { st1 with tt := applyInserts st1.tt (env.script n) }
+      generalize probeK env ctx a (Wee.hash ctx.keys a.s) rec
+        ((applyInserts st1.tt (env.script n)).find (Wee.hash ctx.keys a.s).toNat) (n + 1)
+        { st1 with tt := applyInserts st1.tt (env.script n) } = out2 at h
+      obtain ⟨r2, st2, l2⟩ := out2
+      have h' : st2.nodes ≤ st1.nodes + B := h
+      show st2.nodes ≤ _
+      omega
+
+/-- a worker call with remaining depth 0 counts at most one node -/
+theorem searchNodeE0_nodes_le (env : Env) (ctx : Ctx) (a : NodeArgs) (n : Nat) (st : St) :
+    (searchNodeE env ctx 0 a n st).2.1.nodes ≤ st.nodes + 1 := by
+  rw [searchNodeE_zero]
+  refine nodeBodyE_nodes_le env ctx a Option.none 0 (fun al be n' st' => ?_) n st
+  rw [tailE_none_run]
+  exact Nat.le_refl _
+
+theorem childLoopE_leaf_count (env : Env) (ctx : Ctx) (a : NodeArgs) (hash : UInt64) :
+    ∀ (buf : List Move) (alpha : Eval) (best : Option Move) (kind : Nat) (n : Nat) (st : St),
+      (childLoopE env ctx (searchNodeE env ctx 0) a hash buf alpha best kind n st).2.1.nodes ≤
+        st.nodes + buf.countP (NoPoll.accepted a.s) := by
+  intro buf
+  induction buf with
+  | nil => intro alpha best kind n st; rw [childLoopE_nil_run]; exact Nat.le_add_right _ _
+  | cons mv rest ih =>
+    intro alpha best kind n st
+    rw [childLoopE_cons_run, List.countP_cons]
+    cases ht : tryAsLegal a.s mv with
+    | none => exact Nat.le_add_right _ _
+    | some o =>
+      cases o with
+      | none =>
+        have := ih alpha best kind n st
+        simp only []
+        omega
+      | some r =>
+        obtain ⟨m, next⟩ := r
+        have hacc : NoPoll.accepted a.s mv = true := by unfold NoPoll.accepted; rw [ht]
+        rw [hacc]
+        simp only [if_true]
+        have h1 := searchNodeE0_nodes_le env ctx (childArgs a next alpha) n st
+        generalize searchNodeE env ctx 0 (childArgs a next alpha) n st = out at h1
+        obtain ⟨res, st', l1⟩ := out
+        have h1' : st'.nodes ≤ st.nodes + 1 := h1
+        cases res with
+        | error e => show st'.nodes ≤ _; omega
+        | ok v =>
+          simp only []
+          split
+          · show st'.nodes ≤ _; omega
+          · split
+            · have := ih (-v) (some m) kindExact (n + l1.length) st'
+              generalize childLoopE env ctx (searchNodeE env ctx 0) a hash rest (-v) (some m) kindExact (n + l1.length) st'
+                = out2 at this
+              obtain ⟨r2, st2, l2⟩ := out2
+              have h2 : st2.nodes ≤ st'.nodes + rest.countP (NoPoll.accepted a.s) := this
+              show st2.nodes ≤ _
+              omega
+            · have := ih alpha best kind (n + l1.length) st'
+              generalize childLoopE env ctx (searchNodeE env ctx 0) a hash rest alpha best kind (n + l1.length) st'
+                = out2 at this
+              obtain ⟨r2, st2, l2⟩ := out2
+              have h2 : st2.nodes ≤ st'.nodes + rest.countP (NoPoll.accepted a.s) := this
+              show st2.nodes ≤ _
+              omega
+
+/-- **the root call of the first iteration in ANY environment** counts at most one node for itself and one per legal
+move (the count does not depend on what the other workers write) -/
+theorem root1E_nodes (env : Env) (ctx : Ctx) (a : NodeArgs) (ha : a.prioritized = Option.none)
+    (L : List (Move × State)) (hL : legalMoves? a.s = some L) (n : Nat) (st : St) :
+    (searchNodeE env ctx 1 a n st).2.1.nodes ≤ st.nodes + 1 + L.length := by
+  obtain ⟨ps, hps, rs, hrs, hLe⟩ : ∃ ps, pseudoLegalMoves a.s = some ps ∧ ∃ rs, ps.mapM (tryAsLegal a.s) = some rs ∧
+      L = rs.filterMap id := by
+    unfold legalMoves? at hL
+    cases hps : pseudoLegalMoves a.s with
+    | none => rw [hps] at hL; cases hL
+    | some ps =>
+      rw [hps] at hL
+      simp only [Option.bind_eq_bind, Option.bind_some, Option.pure_def] at hL
+      cases hrs : ps.mapM (tryAsLegal a.s) with
+      | none => rw [hrs] at hL; simp at hL
+      | some rs =>
+        rw [hrs] at hL
+        simp only [Option.bind_some, Option.some.injEq] at hL
+        exact ⟨ps, rfl, rs, hrs, hL.symm⟩
+  have hcount : ps.countP (NoPoll.accepted a.s) = L.length := by rw [hLe]; exact NoPoll.count_accepted a.s ps rs hrs
+  rw [searchNodeE_succ]
+  refine nodeBodyE_nodes_le env ctx a _ L.length (fun al be n' st' => ?_) n st
+  obtain ⟨sorted, rg, hs, hperm⟩ := SearchCtl.sort_rngOnly a.s ps st'
+  rw [tailE_some_run env ctx _ a _ al be n' st' ps sorted _ hps hs]
+  have hbuf : bufferOf a.prioritized sorted = sorted := by rw [ha]; rfl
+  rw [hbuf]
+  have h1 := childLoopE_leaf_count env ctx { a with alpha := al, beta := be } (Wee.hash ctx.keys a.s) sorted.reverse al
+    Option.none kindUpper n' { st' with rng := rg }
+  have hc : sorted.reverse.countP (NoPoll.accepted a.s) = L.length := by
+    rw [List.countP_reverse, hperm.countP_eq, hcount]
+  rw [show ({ a with alpha := al, beta := be } : NodeArgs).s = a.s from rfl, hc] at h1
+  generalize childLoopE env ctx (searchNodeE env ctx 0) { a with alpha := al, beta := be } (Wee.hash ctx.keys a.s)
+    sorted.reverse al Option.none kindUpper n' { st' with rng := rg } = out2 at h1
+  obtain ⟨r2, st2, l2⟩ := out2
+  have h1' : st2.nodes ≤ st'.nodes + L.length := h1
+  cases r2 with
+  | error e => exact h1'
+  | ok x =>
+    cases x with
+    | error b => exact h1'
+    | ok y =>
+      obtain ⟨alpha', best, kind⟩ := y
+      simp only []
+      split
+      · cases evaluate a.s a.s.turn a.curDepth <;> exact h1'
+      · cases best <;> exact h1'
+
+/-- a worker call that is interrupted has counted at least `pollInterval` nodes, in any environment -/
+theorem searchNodeE_interrupt_nodes (env : Env) (ctx : Ctx) (rem : Nat) (a : NodeArgs) (n : Nat) (st : St)
+    (h : (searchNodeE env ctx rem a n st).1 = .error .interrupt) :
+    Gen.pollInterval ≤ (searchNodeE env ctx rem a n st).2.1.nodes := by
+  have hw := searchNodeE_walk (env := env)
+    (V := { I := fun _ => True, J := fun st => Gen.pollInterval ≤ st.nodes, A := fun _ => True, G := fun _ _ => True })
+    (N := fun _ _ => True) (interrupt_walk ctx) (fun _ _ h => h) (fun _ _ _ _ _ _ _ _ _ _ _ _ _ => trivial)
+    rem a trivial n st trivial
+  generalize searchNodeE env ctx rem a n st = out at h hw
+  obtain ⟨r, st', l⟩ := out
+  cases h
+  exact hw.2.1
+
+/-! ### the guarantee: a worker of the first iteration only inserts under the root's key -/
+
+/-- node predicate of the first iteration: remaining depth 0, or the root call with remaining depth 1 -/
+def FirstN (root : State) (rem : Nat) (a : NodeArgs) : Prop := rem = 0 ∨ (rem = 1 ∧ a.s = root)
+
+theorem first_walk (ctx : Ctx) (root : State) :
+    Walk ctx (fun _ => True) (fun _ => True) (FirstN root) (fun _ => True) where
+  tick := by
+    intro st _
+    rw [SearchCtl.tick_eq]
+    split
+    · split
+      · exact ⟨trivial, trivial⟩
+      · trivial
+    · trivial
+  rng := fun _ _ h => h
+  underflow := fun _ _ _ _ _ _ _ _ => trivial
+  leaf := fun _ _ _ _ _ _ => trivial
+  pseudo := fun _ _ _ _ => trivial
+  legal := fun _ _ _ _ _ _ _ _ => trivial
+  eval := fun _ _ _ _ => trivial
+  window := fun _ _ _ _ h => h
+  child := by
+    intro rem a _ _ _ _ _ h _ _ _
+    rcases h with h | ⟨h, _⟩
+    · cases h
+    · exact Or.inl (by omega)
+  insert := fun _ _ _ _ _ _ _ _ _ _ _ _ _ _ _ => trivial
+
+/-- **`C03_first_iteration_only_root_inserts`, any environment**: whatever the other workers write and whatever the reads
+return, a worker with `search_depth = 1` only inserts under the root's key -/
+theorem runWorkerE_rootkey (env : Env) (ctx : Ctx) (root : State) (w : Worker) (tt : TT.Access)
+    (hsd : w.searchDepth = 1) :
+    LogOK (fun k _ => k = (Wee.hash ctx.keys root).toNat) (runWorkerE env ctx root w tt).2.2 := by
+  rw [runWorkerE_eq, hsd]
+  have h := searchNodeE_walk (env := env)
+    (V := Spec.inv (fun _ => True) (fun k _ => k = (Wee.hash ctx.keys root).toNat)) (N := FirstN root)
+    (first_walk ctx root) (fun _ _ h => h)
+    (by
+      intro rem a _ _ _ _ _ _ hN _ _ _ _
+      rcases hN with h | ⟨_, h⟩
+      · cases h
+      · show (Wee.hash ctx.keys a.s).toNat = _
+        rw [h])
+    1 (rootArgsE root w) (Or.inr ⟨rfl, rfl⟩) 0 { tt, rng := w.rng, nodes := 0, polls := w.polls } trivial
+  exact h.log
+
+
+/-! ### the shared table after the first iteration -/
+
+theorem joinOf_interrupted {ctx : Ctx} {root : State} {tt : TT.Access} {ws : List Worker} {H : History} {polls : Nat}
+    (hp : (joinOf ctx root tt ws H polls).interrupted = true) :
+    ∃ i, ∃ h : i < ws.length, outcomeOf ctx root tt ws[i] H i = .error .interrupt := by
+  unfold joinOf at hp
+  simp only at hp
+  obtain ⟨o, ho, hoe⟩ := List.any_eq_true.1 hp
+  obtain ⟨i, h, rfl⟩ := mem_joinOuts ho
+  refine ⟨i, h, ?_⟩
+  unfold outcomeOf
+  cases hr : (runWorkerE (envOf H i) ctx root ws[i] tt).1 with
+  | ok v => rw [hr] at hoe; cases hoe
+  | error err =>
+    rw [hr] at hoe
+    cases err with
+    | interrupt => rfl
+    | panic w => cases hoe
+
+/-- if all inserts of a history go under the key `rk`, then `rk` is found in the final table as soon as it was found in
+the initial one or the history contains an insert -/
+theorem table_rootkey (rk : Nat) : ∀ (H : History) (tt : TT.Access), TTWf tt →
+    (∀ p ∈ H, ∀ k e, p.2 = TOp.insert k e → k = rk) →
+    ((tt.find rk).isSome = true ∨ ∃ p ∈ H, ∃ k e, p.2 = TOp.insert k e) →
+    ((History.table tt H).find rk).isSome = true := by
+  intro H
+  induction H with
+  | nil =>
+    intro tt _ _ h
+    rcases h with h | ⟨p, hp, _⟩
+    · exact h
+    · cases hp
+  | cons q rest ih =>
+    intro tt hwf hkeys h
+    obtain ⟨j, op⟩ := q
+    rw [table_cons]
+    have hrest : ∀ p ∈ rest, ∀ k e, p.2 = TOp.insert k e → k = rk := fun p hp => hkeys p (List.mem_cons_of_mem _ hp)
+    cases op with
+    | find k r =>
+      refine ih tt hwf hrest ?_
+      rcases h with h | ⟨p, hp, k', e', he⟩
+      · exact Or.inl h
+      · rcases List.mem_cons.1 hp with rfl | hp
+        · cases he
+        · exact Or.inr ⟨p, hp, k', e', he⟩
+    | insert k e =>
+      have hk : k = rk := hkeys _ List.mem_cons_self k e rfl
+      subst hk
+      exact ih _ (hwf.insert _ _) hrest (Or.inl (find_insert_isSome hwf _ _))
+
+theorem replay_empty_no_insert : ∀ (l : List TOp) (n : Nat) (tt tt' : TT.Access), Replay Env.empty n tt l tt' →
+    (∀ k e, TOp.insert k e ∉ l) → tt' = tt := by
+  intro l
+  induction l with
+  | nil => intro n tt tt' h _; exact h
+  | cons op rest ih =>
+    intro n tt tt' h hno
+    cases op with
+    | find k r =>
+      exact ih (n + 1) tt tt' h.2 (fun k e hm => hno k e (List.mem_cons_of_mem _ hm))
+    | insert k e => exact absurd List.mem_cons_self (hno k e)
+
+/-- a history without inserts induces the empty environment for every worker -/
+theorem envOf_eq_empty {H : History} (hno : ∀ p ∈ H, ∀ k e, p.2 ≠ TOp.insert k e) (i : Nat) : envOf H i = Env.empty := by
+  have hs : (envOf H i).script = fun _ => [] := by
+    funext j
+    apply List.eq_nil_iff_forall_not_mem.2
+    intro p hp
+    obtain ⟨j', _, hmem⟩ := envOf_mem hp
+    exact hno _ hmem p.1 p.2 rfl
+  show (⟨(envOf H i).script⟩ : Env) = ⟨fun _ => []⟩
+  rw [hs]
+
+theorem mem_workersOfIteration_first {seeds : List UInt64} {pollsOf : Nat → Nat} {w : Worker}
+    (hw : w ∈ workersOfIteration 0 Option.none seeds pollsOf) : w.searchDepth = 1 ∧ w.best = Option.none := by
+  unfold workersOfIteration at hw
+  obtain ⟨p, _, rfl⟩ := List.mem_map.1 hw
+  exact ⟨first_searchDepth p.1, first_best p.1⟩
+
+theorem workersOfIteration_length (depth : Nat) (bestMv : Option Move) (seeds : List UInt64) (pollsOf : Nat → Nat) :
+    (workersOfIteration depth bestMv seeds pollsOf).length = seeds.length := by
+  unfold workersOfIteration
+  rw [List.length_map, List.length_zip, List.length_range, Nat.min_self]
+
+/-- **the first iteration under ANY schedule reports.**  `R` a region with `EvalBelowMate`, keys collision-free on it, the
+root in it with at least one and fewer than `pollInterval - 1` legal moves and its key in the history (as
+`analyze_iterative` arranges); a loop state without remembered best move whose table satisfies `FirstI` and `TTInv`; at
+least one worker.  Then EVERY outcome `st'` of the first iteration — the workers raced in an arbitrary interleaving of
+their atomic table operations, any poll offsets — carries a `BestMove` report and no panic. -/
+theorem stepS_first_reports {R : State → Prop} (hR : Region R) (hE : EvalBelowMate R) (ctx : Ctx) (root : State)
+    (hroot : R root) (hmoves : legalMoves root ≠ []) (hfew : (legalMoves root).length + 1 < Gen.pollInterval)
+    (hcf : CollisionFree ctx.keys R) (nT nB : Nat) (hT : 0 < nT) (hB : 0 < nB)
+    (hhist : ctx.history.contains (Wee.hash ctx.keys root) = true) (workers : Nat) (hw : 0 < workers)
+    (st st' : IterSt) (hbest : st.bestMv = Option.none) (hI0 : FirstI ctx root nT nB st.tt)
+    (htinv : TTInv ctx.keys R st.tt) (hs : StepS ctx root (Wee.hash ctx.keys root) workers 0 st st') :
+    st'.panic = st.panic ∧ ∃ ev line, Event.best ev line ∈ st'.events := by
+  obtain ⟨pollsOf, started, H, polls', hsub, hall, hI, rfl⟩ := hs
+  rw [hbest] at hsub hall
+  obtain ⟨hl, hdj⟩ := hR.good _ hroot
+  obtain ⟨L, hL⟩ := (C01_legal_results root hl hdj).1
+  have hLe : legalMoves root = L := by unfold legalMoves; rw [hL]; rfl
+  rw [hLe] at hfew
+  have hwk : ∀ w ∈ started, w.searchDepth = 1 ∧ w.best = Option.none :=
+    fun w hw' => mem_workersOfIteration_first (hsub.subset hw')
+  -- no worker panics
+  have hsafe := interleaving_safe ctx root nT nB hT hB hhist ⟨hl, hdj⟩ st.tt hI0.1 started
+    (fun w hw' m hm => by rw [(hwk w hw').2] at hm; cases hm) H hI
+  have hnp : (joinOf ctx root st.tt started H polls').panic = Option.none := by
+    cases hp : (joinOf ctx root st.tt started H polls').panic with
+    | none => rfl
+    | some why =>
+      obtain ⟨i, h, he⟩ := joinOf_panic hp
+      exact absurd he (hsafe.1 i h why)
+  -- no worker is interrupted
+  have hni : (joinOf ctx root st.tt started H polls').interrupted = false := by
+    cases hi : (joinOf ctx root st.tt started H polls').interrupted with
+    | false => rfl
+    | true =>
+      exfalso
+      obtain ⟨i, h, he⟩ := joinOf_interrupted hi
+      obtain ⟨hsd, hb⟩ := hwk _ (List.getElem_mem h)
+      unfold outcomeOf at he
+      rw [runWorkerE_eq, hsd] at he
+      have h1 := searchNodeE_interrupt_nodes _ ctx 1 _ 0 _ he
+      have h2 := root1E_nodes (envOf H i) ctx (rootArgsE root started[i]) hb L hL 0
+        { tt := st.tt, rng := started[i].rng, nodes := 0, polls := started[i].polls }
+      have h2' : (searchNodeE (envOf H i) ctx 1 (rootArgsE root started[i]) 0
+        { tt := st.tt, rng := started[i].rng, nodes := 0, polls := started[i].polls }).2.1.nodes ≤ 0 + 1 + L.length := h2
+      omega
+  -- so all workers were started, and there is at least one
+  have hstarted := hall hni hnp
+  have hlen : started.length = workers := by
+    rw [hstarted, workersOfIteration_length, drawSeeds_length]
+  -- all inserts go under the root's key
+  have hkeys : ∀ p ∈ H, ∀ k e, p.2 = TOp.insert k e → k = (Wee.hash ctx.keys root).toNat :=
+    interleaving_guarantee (fun k _ => k = (Wee.hash ctx.keys root).toNat)
+      (fun i h env _ => runWorkerE_rootkey env ctx root started[i] st.tt (hwk _ (List.getElem_mem h)).1) hI
+  -- the root's key is in the final table
+  have hwf : TTWf st.tt := ⟨nT, nB, hT, hB, hI0.1.2.1⟩
+  have hfind : ((History.table st.tt H).find (Wee.hash ctx.keys root).toNat).isSome = true := by
+    apply Classical.byContradiction
+    intro hnot
+    have hno : ¬ ((st.tt.find (Wee.hash ctx.keys root).toNat).isSome = true ∨ ∃ p ∈ H, ∃ k e, p.2 = TOp.insert k e) :=
+      fun h => hnot (table_rootkey _ H st.tt hwf hkeys h)
+    have hno1 : ¬ (st.tt.find (Wee.hash ctx.keys root).toNat).isSome = true := fun h => hno (Or.inl h)
+    have hno2 : ∀ p ∈ H, ∀ k e, p.2 ≠ TOp.insert k e := fun p hp k e he => hno (Or.inr ⟨p, hp, k, e, he⟩)
+    -- worker 0 runs as if alone
+    have h0 : 0 < started.length := by omega
+    obtain ⟨hsd, hb⟩ := hwk _ (List.getElem_mem h0)
+    have hlog := hI.2 0 h0
+    rw [envOf_eq_empty hno2 0] at hlog
+    have hrep := runWorkerE_replay Env.empty ctx root started[0] st.tt
+    have hnoins : ∀ k e, TOp.insert k e ∉ (runWorkerE Env.empty ctx root started[0] st.tt).2.2 := by
+      intro k e hm
+      rw [hlog] at hm
+      unfold History.proj at hm
+      obtain ⟨p, hp, he⟩ := List.mem_map.1 hm
+      exact hno2 p (List.mem_filter.1 hp).1 k e he
+    have htt := replay_empty_no_insert _ 0 _ _ hrep hnoins
+    have hseq := runWorkerE_empty ctx root started[0] st.tt
+    rw [hsd, hb] at hseq
+    have hfw := firstWorker_run hR hE ctx root hroot hmoves L hL hfew nT nB hT hB hhist st.tt started[0].rng
+      started[0].polls hI0
+    rw [← hseq] at hfw
+    have := hfw.2.2.1
+    rw [show (runWorkerE Env.empty ctx root started[0] st.tt).2.1.tt = st.tt from htt] at this
+    exact hno1 this
+  -- the table invariant of C03 for the final table
+  have hup : ∀ s, upTo (fun _ => R) 1 s ↔ R s := upTo_const 1
+  have hleg := interleaving_legal hR.graded 1 ctx (hcf.congr (fun s hs => (hup s).1 hs)) root hroot st.tt
+    ⟨hwf, htinv.congr (fun s hs => (hup s).1 hs)⟩ started
+    (fun w hw' => ⟨by rw [(hwk w hw').1]; exact Nat.le_refl _, fun m hm => by rw [(hwk w hw').2] at hm; cases hm⟩) H hI
+  have htab : TTInv ctx.keys R (History.table st.tt H) := by
+    have := (hleg.2 H.length).2
+    rw [take_all_table] at this
+    exact this.congr (fun s hs => (hup s).2 hs)
+  -- the report
+  cases hfe : (History.table st.tt H).find (Wee.hash ctx.keys root).toNat with
+  | none => rw [hfe] at hfind; cases hfind
+  | some e =>
+    have hne := walkLine_ne_nil htab 0 root hroot e hfe
+    unfold finishStep
+    rw [hnp]
+    dsimp only
+    rw [hni]
+    simp only [Bool.not_false, ↓reduceIte]
+    have hemp : (walkLine ctx.keys (joinOf ctx root st.tt started H polls').tt (0 + 1) root).isEmpty = false := by
+      rw [joinOf_tt]
+      cases hwl : walkLine ctx.keys (History.table st.tt H) (0 + 1) root with
+      | nil => exact absurd hwl hne
+      | cons _ _ => rfl
+    rw [hemp]
+    simp only [Bool.false_eq_true, ↓reduceIte]
+    exact ⟨trivial, _, _, List.mem_append_right _ (List.mem_singleton.2 rfl)⟩
+
+
+/-! ### the whole search under arbitrary schedules -/
+
+theorem finishStep_events_mono (ctx : Ctx) (root : State) (rootHash : UInt64) (depth : Nat) (rng : Rng.ChaCha8)
+    (w : WorkersOut) (st : IterSt) : ∀ ev ∈ st.events, ev ∈ (finishStep ctx root rootHash depth rng w st).events := by
+  intro ev hev
+  unfold finishStep
+  split
+  · exact hev
+  · split
+    · dsimp only
+      split
+      · exact List.mem_append_left _ hev
+      · exact List.mem_append_left _ (List.mem_append_left _ hev)
+    · dsimp only
+      split
+      · split
+        · split
+          · exact hev
+          · exact List.mem_append_left _ hev
+        · exact hev
+      · exact hev
+
+theorem loopS_events_mono {ctx : Ctx} {root : State} {rootHash : UInt64} {workersOf : Nat → Nat} {n depth : Nat}
+    {st st' : IterSt} (hl : LoopS ctx root rootHash workersOf n depth st st') : ∀ ev ∈ st.events, ev ∈ st'.events := by
+  induction hl with
+  | done depth st => exact fun _ h => h
+  | finished n depth st _ => exact fun _ h => h
+  | step n depth st st1 st2 _ hs _ ih =>
+    intro ev hev
+    obtain ⟨pollsOf, started, H, polls', _, _, _, rfl⟩ := hs
+    exact ih ev (finishStep_events_mono _ _ _ _ _ _ _ ev hev)
+
+/-- **every outcome of the search under arbitrary schedules reports at least once** (the events of the final loop state) -/
+theorem loopS_first_reports {R : State → Prop} (hR : Region R) (hE : EvalBelowMate R) (ctx : Ctx) (root : State)
+    (hroot : R root) (hmoves : legalMoves root ≠ []) (hfew : (legalMoves root).length + 1 < Gen.pollInterval)
+    (hcf : CollisionFree ctx.keys R) (nT nB : Nat) (hT : 0 < nT) (hB : 0 < nB)
+    (hhist : ctx.history.contains (Wee.hash ctx.keys root) = true) (workersOf : Nat → Nat) (hw : 0 < workersOf 0)
+    (n : Nat) (st st' : IterSt) (hfin : st.finished = false) (hbest : st.bestMv = Option.none)
+    (hI0 : FirstI ctx root nT nB st.tt) (htinv : TTInv ctx.keys R st.tt)
+    (hl : LoopS ctx root (Wee.hash ctx.keys root) workersOf (n + 1) 0 st st') :
+    ∃ ev line, Event.best ev line ∈ st'.events := by
+  cases hl with
+  | finished _ _ _ hf => rw [hfin] at hf; cases hf
+  | step _ _ _ st1 _ _ hs hrest =>
+    obtain ⟨_, ev, line, hmem⟩ := stepS_first_reports hR hE ctx root hroot hmoves hfew hcf nT nB hT hB hhist (workersOf 0) hw
+      st st1 hbest hI0 htinv hs
+    exact ⟨ev, line, loopS_events_mono hrest _ hmem⟩
+
+end Wee.Env
+
+/-! ## 8. the evaluation range in an environment (rely: every foreign insert stores a value strictly inside the window) -/
+namespace Wee.Env
+open Wee Wee.Search
+open Wee.SearchCtl (Walk InBuffer childArgs entryOf tick bufferOf)
+
+/-- the admissible inserts of the evaluation range -/
+def InsIn (_ : Nat) (e : TT.Entry) : Prop := Inside e.eval
+
+theorem evalIn_applyInserts {env : Env} (hrely : ∀ j, ∀ p ∈ env.script j, InsIn p.1 p.2) (tt : TT.Access)
+    (h : EvalIn tt) (j : Nat) : EvalIn (applyInserts tt (env.script j)) :=
+  applyInserts_inv (P := EvalIn) (Adm := InsIn) (fun _ k e h he => h.insert k e he) _ tt h (hrely j)
+
+theorem logOK_single {G : Nat → TT.Entry → Prop} {k : Nat} {e : TT.Entry} (h : G k e) : LogOK G [TOp.insert k e] := by
+  intro k' e' hm
+  simp only [List.mem_singleton, TOp.insert.injEq] at hm
+  obtain ⟨rfl, rfl⟩ := hm
+  exact h
+
+theorem logOK_find {G : Nat → TT.Entry → Prop} {k : Nat} {r : Option TT.Entry} {l : List TOp} (h : LogOK G l) :
+    LogOK G (TOp.find k r :: l) := by
+  intro k' e' hm
+  rcases List.mem_cons.1 hm with h' | h'
+  · cases h'
+  · exact h k' e' h'
+
+/-- what a worker call guarantees in the environment -/
+def ChildInE (child : NodeArgs → ME Eval) (a' : NodeArgs) : Prop :=
+  ∀ n st, EvalIn st.tt → EvalIn (child a' n st).2.1.tt ∧ LogOK InsIn (child a' n st).2.2 ∧
+    ∀ v, (child a' n st).1 = .ok v → Inside v
+
+theorem childLoopE_inside (env : Env) (hrely : ∀ j, ∀ p ∈ env.script j, InsIn p.1 p.2) (ctx : Ctx)
+    (child : NodeArgs → ME Eval) (a : NodeArgs) (hash : UInt64) (hb1 : -M0 < a.beta) (hb2 : a.beta ≤ M0) :
+    ∀ (buf : List Move), (∀ mv ∈ buf, ∀ m next alpha, tryAsLegal a.s mv = some (some (m, next)) → -M0 ≤ alpha →
+        alpha < M0 → ChildInE child (childArgs a next alpha)) →
+      ∀ (alpha : Eval) (best : Option Move) (kind : Nat) (n : Nat) (st : St),
+      EvalIn st.tt → -M0 ≤ alpha → alpha < M0 →
+      EvalIn (childLoopE env ctx child a hash buf alpha best kind n st).2.1.tt ∧
+      LogOK InsIn (childLoopE env ctx child a hash buf alpha best kind n st).2.2 ∧
+      (∀ b, (childLoopE env ctx child a hash buf alpha best kind n st).1 = .ok (.error b) → Inside b) ∧
+      (∀ al' b' k', (childLoopE env ctx child a hash buf alpha best kind n st).1 = .ok (.ok (al', b', k')) →
+        -M0 ≤ al' ∧ al' < M0 ∧ (-M0 < alpha → -M0 < al') ∧
+        (-M0 < al' ∨ (childLoopE env ctx child a hash buf alpha best kind n st).2.1.nodes = st.nodes) ∧
+        ((al' = alpha ∧ b' = best) ∨ (b'.isSome = true ∧ alpha < al'))) := by
+  intro buf
+  induction buf with
+  | nil =>
+    intro _ alpha best kind n st hI h1 h2
+    rw [childLoopE_nil_run]
+    refine ⟨hI, LogOK.nil, (fun b h => nomatch h), fun al' b' k' h => ?_⟩
+    cases h
+    exact ⟨h1, h2, fun h => h, Or.inr rfl, Or.inl ⟨rfl, rfl⟩⟩
+  | cons mv rest ih0 =>
+    intro hchild alpha best kind n st hI h1 h2
+    have ih := ih0 (fun mv' h' => hchild mv' (List.mem_cons_of_mem _ h'))
+    rw [childLoopE_cons_run]
+    cases ht : tryAsLegal a.s mv with
+    | none =>
+      simp only []
+      exact ⟨hI, LogOK.nil, (fun b h => nomatch h), (fun al' b' k' h => nomatch h)⟩
+    | some o =>
+      cases o with
+      | none => exact ih alpha best kind n st hI h1 h2
+      | some r =>
+        obtain ⟨m, next⟩ := r
+        simp only []
+        obtain ⟨c1, c2, c3⟩ := hchild mv List.mem_cons_self m next alpha ht h1 h2 n st hI
+        generalize child (childArgs a next alpha) n st = out at c1 c2 c3
+        obtain ⟨res, st', l1⟩ := out
+        cases res with
+        | error e => exact ⟨c1, c2, (fun b h => nomatch h), (fun al' b' k' h => nomatch h)⟩
+        | ok v =>
+          obtain ⟨v1, v2⟩ := c3 v rfl
+          simp only []
+          by_cases g1 : -v ≥ a.beta
+          · rw [if_pos g1]
+            have hin : Inside a.beta := ⟨hb1, by unfold Eval at *; omega⟩
+            refine ⟨EvalIn.insert (evalIn_applyInserts hrely _ c1 _) _ _ hin, c2.append (logOK_single hin),
+              fun b h => ?_, (fun al' b' k' h => nomatch h)⟩
+            cases h
+            exact hin
+          · rw [if_neg g1]
+            by_cases g2 : -v > alpha
+            · rw [if_pos g2]
+              obtain ⟨i1, i2, i3, i4⟩ := ih (-v) (some m) kindExact (n + l1.length) st' c1 (by unfold Eval at *; omega)
+                (by unfold Eval at *; omega)
+              generalize childLoopE env ctx child a hash rest (-v) (some m) kindExact (n + l1.length) st' = out2
+                at i1 i2 i3 i4
+              obtain ⟨r2, st2, l2⟩ := out2
+              refine ⟨i1, c2.append i2, i3, fun al' b' k' h => ?_⟩
+              obtain ⟨j1, j2, j3, _, j5⟩ := i4 al' b' k' h
+              have hgt : -M0 < al' := j3 (by unfold Eval at *; omega)
+              refine ⟨j1, j2, fun _ => hgt, Or.inl hgt, Or.inr ?_⟩
+              rcases j5 with ⟨e1, e2⟩ | ⟨e1, e2⟩
+              · subst e1 e2; exact ⟨rfl, g2⟩
+              · exact ⟨e1, by unfold Eval at *; omega⟩
+            · rw [if_neg g2]
+              obtain ⟨i1, i2, i3, i4⟩ := ih alpha best kind (n + l1.length) st' c1 h1 h2
+              generalize childLoopE env ctx child a hash rest alpha best kind (n + l1.length) st' = out2 at i1 i2 i3 i4
+              obtain ⟨r2, st2, l2⟩ := out2
+              refine ⟨i1, c2.append i2, i3, fun al' b' k' h => ?_⟩
+              obtain ⟨j1, j2, j3, _, j5⟩ := i4 al' b' k' h
+              have hgt : -M0 < al' := j3 (by unfold Eval at *; omega)
+              exact ⟨j1, j2, fun _ => hgt, Or.inl hgt, j5⟩
+
+/-- the continuation after the probe: quiescence (`rec = none`) or the expansion (`rec = some child`) -/
+theorem tailE_inside {R : State → Prop} (hR : Region R) (hE : EvalBelowMate R) (env : Env)
+    (hrely : ∀ j, ∀ p ∈ env.script j, InsIn p.1 p.2) (ctx : Ctx) (a : NodeArgs) (hash : UInt64) (alpha beta : Eval)
+    (rec : Option (NodeArgs → ME Eval)) (ha : R a.s) (hw : WinOK alpha beta) (hd : a.curDepth + 70 < 2^31)
+    (hprio : ∀ m, a.prioritized = some m → LegalIn a.s m)
+    (hchild : ∀ child, rec = some child → ∀ next al, (∃ m, (m, next) ∈ legalMoves a.s) → -M0 ≤ al → al < M0 →
+      ChildInE child (childArgs { a with alpha := alpha, beta := beta } next al))
+    (n : Nat) (st : St) (hst : EvalIn st.tt) :
+    EvalIn (tailE env ctx a hash alpha beta rec n st).2.1.tt ∧ LogOK InsIn (tailE env ctx a hash alpha beta rec n st).2.2 ∧
+    ∀ v, (tailE env ctx a hash alpha beta rec n st).1 = .ok v → 1 ≤ a.curDepth → Inside v := by
+  obtain ⟨w1, w2, w3, w4⟩ := hw
+  cases rec with
+  | none =>
+    rw [tailE_none_run]
+    refine ⟨hst, LogOK.nil, fun v h hdeep => ?_⟩
+    cases hq : quiesce evaluate (quiesceFuel a.s) a.s a.curDepth alpha beta with
+    | error e => rw [hq] at h; cases h
+    | ok v' =>
+      rw [hq] at h
+      cases h
+      refine quiesce_bound hR hE _ a.s a.curDepth alpha beta ha hdeep ?_ w1 w2 w3 w4 _ hq
+      have := popcount_le a.s.pieces.occ
+      unfold quiesceFuel
+      omega
+  | some child =>
+    obtain ⟨hl, hdj⟩ := hR.good _ ha
+    obtain ⟨L, hL⟩ := (C01_legal_results a.s hl hdj).1
+    cases hp : pseudoLegalMoves a.s with
+    | none =>
+      have : tailE env ctx a hash alpha beta (some child) n st =
+          (.error (.panic "move generation: Square::offset(..).unwrap()"), st, []) := by
+        unfold tailE; rw [hp]; rfl
+      rw [this]
+      exact ⟨hst, LogOK.nil, fun v h => nomatch h⟩
+    | some pseudo =>
+      obtain ⟨sorted, r, hs, hperm⟩ := SearchCtl.sort_rngOnly a.s pseudo st
+      rw [tailE_some_run env ctx child a hash alpha beta n st pseudo sorted _ hp hs]
+      have hbuf := buffer_legal hL hprio hp hperm
+      have hloop := childLoopE_inside env hrely ctx child { a with alpha := alpha, beta := beta } hash w3 w4
+        (bufferOf a.prioritized sorted).reverse
+        (fun mv hmv m next al ht h1 h2 => hchild child rfl next al ⟨m, hbuf mv hmv (m, next) ht⟩ h1 h2)
+        alpha Option.none kindUpper n { st with rng := r } hst w1 w2
+      generalize childLoopE env ctx child { a with alpha := alpha, beta := beta } hash
+        (bufferOf a.prioritized sorted).reverse alpha Option.none kindUpper n { st with rng := r } = out at hloop
+      obtain ⟨r2, st2, l⟩ := out
+      obtain ⟨l1, l2, l3, l4⟩ := hloop
+      cases r2 with
+      | error e => exact ⟨l1, l2, fun v h => nomatch h⟩
+      | ok x =>
+        cases x with
+        | error b =>
+          refine ⟨l1, l2, fun v h _ => ?_⟩
+          cases h
+          exact l3 b rfl
+        | ok y =>
+          obtain ⟨alpha', best, kind⟩ := y
+          obtain ⟨j1, j2, _, j4, j5⟩ := l4 alpha' best kind rfl
+          simp only []
+          by_cases hn : (st2.nodes == st.nodes) = true
+          · rw [if_pos hn]
+            cases he : evaluate a.s a.s.turn a.curDepth with
+            | none => exact ⟨l1, l2, fun v h => nomatch h⟩
+            | some e =>
+              refine ⟨l1, l2, fun v h hdeep => ?_⟩
+              cases h
+              exact hE a.s ha a.s.turn a.curDepth _ hdeep (by omega) he
+          · rw [if_neg hn]
+            have hgt : -M0 < alpha' := by
+              rcases j4 with h | h
+              · exact h
+              · exfalso
+                have h' : st2.nodes = st.nodes := h
+                rw [h'] at hn
+                simp at hn
+            have hin : Inside alpha' := ⟨hgt, j2⟩
+            cases best with
+            | none =>
+              refine ⟨l1, l2, fun v h _ => ?_⟩
+              cases h
+              exact hin
+            | some m =>
+              refine ⟨EvalIn.insert (evalIn_applyInserts hrely _ l1 _) _ _ hin, l2.append (logOK_single hin),
+                fun v h _ => ?_⟩
+              cases h
+              exact hin
+
+theorem probeK_inside (env : Env) (ctx : Ctx) (a : NodeArgs) (hash : UInt64) (rec : Option (NodeArgs → ME Eval))
+    (P : Prop) (hw : WinOK a.alpha a.beta)
+    (hT : ∀ al be n st, WinOK al be → EvalIn st.tt → EvalIn (tailE env ctx a hash al be rec n st).2.1.tt ∧
+      LogOK InsIn (tailE env ctx a hash al be rec n st).2.2 ∧
+      ∀ v, (tailE env ctx a hash al be rec n st).1 = .ok v → P → Inside v)
+    (o : Option TT.Entry) (ho : ∀ e, o = some e → Inside e.eval) (n : Nat) (st : St) (hst : EvalIn st.tt) :
+    EvalIn (probeK env ctx a hash rec o n st).2.1.tt ∧ LogOK InsIn (probeK env ctx a hash rec o n st).2.2 ∧
+    ∀ v, (probeK env ctx a hash rec o n st).1 = .ok v → P → Inside v := by
+  cases o with
+  | none => exact hT _ _ n st hw hst
+  | some e =>
+    obtain ⟨e1, e2⟩ := ho e rfl
+    obtain ⟨w1, w2, w3, w4⟩ := hw
+    have hpure : ∀ (n : Nat) (st : St), EvalIn st.tt →
+        EvalIn ((pure e.eval : ME Eval) n st).2.1.tt ∧ LogOK InsIn ((pure e.eval : ME Eval) n st).2.2 ∧
+        ∀ v, ((pure e.eval : ME Eval) n st).1 = .ok v → P → Inside v := by
+      intro n st hst
+      refine ⟨hst, LogOK.nil, fun v h _ => ?_⟩
+      cases h
+      exact ⟨e1, e2⟩
+    unfold probeK
+    simp only
+    by_cases hu : a.maxDepth < a.curDepth ∨ e.maxDepth < e.depth
+    · rw [if_pos hu]
+      exact ⟨hst, LogOK.nil, fun v h => nomatch h⟩
+    · rw [if_neg hu]
+      split
+      · split
+        · exact hpure n st hst
+        · split
+          · split
+            · exact hpure n st hst
+            · exact hT _ _ _ _ (by unfold WinOK; unfold Eval at *; omega) hst
+          · split
+            · exact hpure n st hst
+            · exact hT _ _ _ _ (by unfold WinOK; unfold Eval at *; omega) hst
+      · exact hT _ _ _ _ ⟨w1, w2, w3, w4⟩ hst
+
+theorem nodeBodyE_inside (env : Env) (hrely : ∀ j, ∀ p ∈ env.script j, InsIn p.1 p.2) (ctx : Ctx) (a : NodeArgs)
+    (rec : Option (NodeArgs → ME Eval)) (P : Prop) (hw : WinOK a.alpha a.beta)
+    (hT : ∀ al be n st, WinOK al be → EvalIn st.tt →
+      EvalIn (tailE env ctx a (Wee.hash ctx.keys a.s) al be rec n st).2.1.tt ∧
+      LogOK InsIn (tailE env ctx a (Wee.hash ctx.keys a.s) al be rec n st).2.2 ∧
+      ∀ v, (tailE env ctx a (Wee.hash ctx.keys a.s) al be rec n st).1 = .ok v → P → Inside v)
+    (n : Nat) (st : St) (hst : EvalIn st.tt) :
+    EvalIn (nodeBodyE env ctx rec a n st).2.1.tt ∧ LogOK InsIn (nodeBodyE env ctx rec a n st).2.2 ∧
+    ∀ v, (nodeBodyE env ctx rec a n st).1 = .ok v → P → Inside v := by
+  rw [nodeBodyE_run]
+  have ht := tick_tt ctx st
+  generalize tick ctx st = out at ht
+  obtain ⟨r, st1⟩ := out
+  have hst1 : EvalIn st1.tt := by rw [show st1.tt = st.tt from ht]; exact hst
+  cases r with
+  | error e => exact ⟨hst1, LogOK.nil, fun v h => nomatch h⟩
+  | ok u =>
+    simp only
+    split
+    · refine ⟨hst1, LogOK.nil, fun v h _ => ?_⟩
+      cases h
+      have := M0_pos
+      exact ⟨by omega, this⟩
+    · rw [probeE_run]
+      have hI2 := evalIn_applyInserts hrely st1.tt hst1 n
+      have h := probeK_inside env ctx a (Wee.hash ctx.keys a.s) rec P hw hT
+        ((applyInserts st1.tt (env.script n)).find (Wee.hash ctx.keys a.s).toNat) (fun e he => hI2.find he) (n + 1)
+        { st1 with tt := applyInserts st1.tt (env.script n) } hI2
+      generalize probeK env ctx a (Wee.hash ctx.keys a.s) rec
+        ((applyInserts st1.tt (env.script n)).find (Wee.hash ctx.keys a.s).toNat) (n + 1)
+        { st1 with tt := applyInserts st1.tt (env.script n) } = out2 at h
+      obtain ⟨r2, st2, l2⟩ := out2
+      exact ⟨h.1, logOK_find h.2.1, h.2.2⟩
+
+/-- **`searchNode_inside` in an environment**: relying on the other workers to store only values strictly inside the
+window, the worker keeps `EvalIn`, stores only such values itself, and returns such a value from every non-root call -/
+theorem searchNodeE_inside {R : State → Prop} (hR : Region R) (hE : EvalBelowMate R) (env : Env)
+    (hrely : ∀ j, ∀ p ∈ env.script j, InsIn p.1 p.2) (ctx : Ctx) :
+    ∀ (rem : Nat) (a : NodeArgs) (n : Nat) (st : St), R a.s → WinOK a.alpha a.beta → a.curDepth + 2 * rem + 70 < 2^31 →
+      (∀ m, a.prioritized = some m → LegalIn a.s m) → EvalIn st.tt →
+      EvalIn (searchNodeE env ctx rem a n st).2.1.tt ∧ LogOK InsIn (searchNodeE env ctx rem a n st).2.2 ∧
+      ∀ v, (searchNodeE env ctx rem a n st).1 = .ok v → 1 ≤ a.curDepth → Inside v := by
+  intro rem
+  induction rem with
+  | zero =>
+    intro a n st ha hw hd hprio hst
+    rw [searchNodeE_zero]
+    refine nodeBodyE_inside env hrely ctx a Option.none (1 ≤ a.curDepth) hw (fun al be n' st' hw' hst' => ?_) n st hst
+    exact tailE_inside hR hE env hrely ctx a _ al be Option.none ha hw' (by omega) hprio (fun c hc => nomatch hc) n' st' hst'
+  | succ rem ih =>
+    intro a n st ha hw hd hprio hst
+    rw [searchNodeE_succ]
+    refine nodeBodyE_inside env hrely ctx a _ (1 ≤ a.curDepth) hw (fun al be n' st' hw' hst' => ?_) n st hst
+    refine tailE_inside hR hE env hrely ctx a _ al be _ ha hw' (by omega) hprio ?_ n' st' hst'
+    intro child hc next al' ⟨m, hm⟩ h1 h2 n'' st'' hst''
+    cases hc
+    have hx := ext_le_one a
+    have hwin : WinOK (childArgs { a with alpha := al, beta := be } next al').alpha
+        (childArgs { a with alpha := al, beta := be } next al').beta := by
+      obtain ⟨w1, w2, w3, w4⟩ := hw'
+      show WinOK (-be) (-al')
+      unfold WinOK
+      unfold Eval at *
+      omega
+    have hdep : (childArgs { a with alpha := al, beta := be } next al').curDepth + 2 * rem + 70 < 2^31 := by
+      show a.curDepth + 1 + (if a.curExt < Gen.extensionCap then extensionOf a.s else 0) + 2 * rem + 70 < 2^31
+      omega
+    obtain ⟨i1, i2, i3⟩ := ih (childArgs { a with alpha := al, beta := be } next al') n'' st'' (hR.closed _ ha _ hm) hwin
+      hdep (fun m' h' => nomatch h') hst''
+    refine ⟨i1, i2, fun v hv => i3 v hv ?_⟩
+    show 1 ≤ a.curDepth + 1 + (if a.curExt < Gen.extensionCap then extensionOf a.s else 0)
+    omega
+
+
+/-- **one worker, evaluation range** (rely ⇒ guarantee) -/
+theorem runWorkerE_evalIn {R : State → Prop} (hR : Region R) (hE : EvalBelowMate R) (env : Env)
+    (hrely : ∀ j, ∀ p ∈ env.script j, InsIn p.1 p.2) (ctx : Ctx) (root : State) (hroot : R root) (w : Worker)
+    (hsd : 2 * w.searchDepth + 70 < 2^31) (hbest : ∀ m, w.best = some m → LegalIn root m) (tt : TT.Access)
+    (htt : EvalIn tt) :
+    EvalIn (runWorkerE env ctx root w tt).2.1.tt ∧ LogOK InsIn (runWorkerE env ctx root w tt).2.2 := by
+  rw [runWorkerE_eq]
+  have h := searchNodeE_inside hR hE env hrely ctx w.searchDepth (rootArgsE root w) 0
+    { tt, rng := w.rng, nodes := 0, polls := w.polls } hroot winOK_root
+    (by show 0 + 2 * w.searchDepth + 70 < 2^31; omega) hbest htt
+  exact ⟨h.1, h.2.1⟩
+
+/-- the evaluation range for one iteration under any schedule: every insert stores a value strictly inside the window and
+`EvalIn` holds of the shared table after every prefix of the history -/
+theorem interleaving_evalIn {R : State → Prop} (hR : Region R) (hE : EvalBelowMate R) (ctx : Ctx) (root : State)
+    (hroot : R root) (tt : TT.Access) (htt : EvalIn tt) (ws : List Worker)
+    (hws : ∀ w ∈ ws, 2 * w.searchDepth + 70 < 2^31 ∧ ∀ m, w.best = some m → LegalIn root m)
+    (H : History) (hI : Interleaving ctx root tt ws H) :
+    (∀ p ∈ H, ∀ k e, p.2 = TOp.insert k e → InsIn k e) ∧ ∀ n, EvalIn (History.table tt (H.take n)) := by
+  have hins : ∀ p ∈ H, ∀ k e, p.2 = TOp.insert k e → InsIn k e :=
+    interleaving_guarantee InsIn
+      (fun i h env hadm => (runWorkerE_evalIn hR hE env hadm ctx root hroot ws[i]
+        (hws _ (List.getElem_mem h)).1 (hws _ (List.getElem_mem h)).2 tt htt).2) hI
+  exact ⟨hins, fun n => table_inv (P := EvalIn) (Adm := InsIn) (fun _ k e h he => h.insert k e he) (H.take n) tt htt
+    (fun p hp => hins p (List.mem_of_mem_take hp))⟩
+
+theorem finishStep_tt (ctx : Ctx) (root : State) (rootHash : UInt64) (depth : Nat) (rng : Rng.ChaCha8) (w : WorkersOut)
+    (st : IterSt) : (finishStep ctx root rootHash depth rng w st).tt = if w.panic.isSome then st.tt else w.tt := by
+  unfold finishStep
+  cases hp : w.panic with
+  | some why => simp
+  | none =>
+    simp only [Option.isSome_none, Bool.false_eq_true, ↓reduceIte]
+    split <;> (try split) <;> rfl
+
+/-- one iteration under any schedule keeps `EvalIn` (given the loop invariant of C03 for the remembered best move) -/
+theorem stepS_evalIn {R : State → Prop} (hR : Region R) (hE : EvalBelowMate R) (ctx : Ctx) (root : State)
+    (hroot : R root) (rootHash : UInt64) (workers depth : Nat) (hd : 2 * (depth + 1) + 70 < 2^31) (st st' : IterSt)
+    (hbest : ∀ m, st.bestMv = some m → LegalIn root m) (h : EvalIn st.tt)
+    (hs : StepS ctx root rootHash workers depth st st') : EvalIn st'.tt := by
+  obtain ⟨pollsOf, started, H, polls', hsub, _, hI, rfl⟩ := hs
+  rw [finishStep_tt]
+  split
+  · exact h
+  · rw [joinOf_tt, ← take_all_table]
+    refine (interleaving_evalIn hR hE ctx root hroot st.tt h started (fun w hw => ?_) H hI).2 _
+    obtain ⟨h1, h2⟩ := mem_workersOfIteration (hsub.subset hw)
+    refine ⟨by omega, fun m hm => ?_⟩
+    rcases h2 with h2 | h2
+    · rw [h2] at hm; exact hbest m hm
+    · rw [h2] at hm; cases hm
+
+theorem loopS_evalIn {R : State → Prop} (hR : Region R) (hE : EvalBelowMate R) (ctx : Ctx)
+    (hcf : CollisionFree ctx.keys R) (root : State) (hroot : R root) (rootHash : UInt64) (workersOf : Nat → Nat)
+    (D : Nat) (hD : 2 * D + 70 < 2^31) {n depth : Nat} {st st' : IterSt}
+    (hl : LoopS ctx root rootHash workersOf n depth st st') :
+    depth + n ≤ D → IterInv ctx.keys (upTo (fun _ => R) D) root st → EvalIn st.tt → EvalIn st'.tt := by
+  induction hl with
+  | done depth st => exact fun _ _ h => h
+  | finished n depth st _ => exact fun _ _ h => h
+  | step n depth st st1 st2 _ hs _ ih =>
+    intro hd hinv h
+    refine ih (by omega) ?_ ?_
+    · exact stepS_inv hR.graded D ctx (hcf.congr (fun s hs => (upTo_const D s).1 hs)) root hroot rootHash _ depth
+        (by omega) st st1 hinv hs
+    · exact stepS_evalIn hR hE ctx root hroot rootHash _ depth (by omega) st st1 hinv.best h hs
+
+/-- **every outcome of the search under arbitrary schedules keeps the evaluation range** -/
+theorem searchS_evalIn {R : State → Prop} (hR : Region R) (hE : EvalBelowMate R) (root : State) (hroot : R root)
+    (art : Artifact) (hcf : CollisionFree art.keys.keys R) (htt : TInv art.keys.keys R art.tt) (hin : EvalIn art.tt)
+    (rng0 : Rng.ChaCha8) (maxDepth : Option Nat) (workersOf : Nat → Nat) (cancelAt : Option Nat) (fuelDepth : Nat)
+    (hlim : maxDepth.getD fuelDepth ≤ 1000000000) (out : Outcome)
+    (hout : SearchS root rng0 maxDepth art workersOf cancelAt fuelDepth out) : EvalIn out.artifact.tt := by
+  obtain ⟨st, hl, rfl⟩ := hout
+  have key : ∀ lim, lim ≤ maxDepth.getD fuelDepth →
+      LoopS { keys := art.keys.keys, history := Wee.hash art.keys.keys root :: art.history, cancelAt := cancelAt } root
+        (Wee.hash art.keys.keys root) workersOf lim 0
+        { tt := art.tt, rng := rng0, events := [], nodes := 0, bestEval := Ev.negInf, bestMv := Option.none, polls := 0 } st →
+      EvalIn st.tt := by
+    intro lim hle hl'
+    have h0 : IterInv art.keys.keys (upTo (fun _ => R) lim) root
+        { tt := art.tt, rng := rng0, events := [], nodes := 0, bestEval := Ev.negInf, bestMv := Option.none, polls := 0 } :=
+      ⟨htt.congr (fun s hs => (upTo_const _ s).1 hs), fun m hm => (by cases hm), fun ev line hm => (by cases hm)⟩
+    exact loopS_evalIn hR hE
+      { keys := art.keys.keys, history := Wee.hash art.keys.keys root :: art.history, cancelAt := cancelAt } hcf root hroot
+      _ workersOf lim (by omega) hl' (by omega) h0 hin
+  refine key _ ?_ hl
+  split
+  · exact Nat.zero_le _
+  · cases maxDepth <;> exact Nat.le_refl _
+
+end Wee.Env
